@@ -281,6 +281,12 @@ def _rdm_inputs(case):
     data = rs.randn(n_obs, n_vox) + 2 * pattern[rows]
     if method == 'poisson':
         data = np.abs(data) + 0.25              # rates must be positive
+    dt = case.get('dtype')
+    if dt in ('int16', 'uint8'):         # recorded data as stored in image files: integer typed (uint8: non-negative)
+        data = np.round(data * 12 + (100 if dt == 'uint8' else 0)).clip(0 if dt == 'uint8' else -30000, 250 if dt == 'uint8' else 30000)
+        data = data.astype(dt)
+    elif dt == 'float32':
+        data = (data + 200.0).astype(np.float32)
     order = case.get('centre_order', 'sorted')
     centers = rs.choice(n_vox, size=n_centers, replace=False)
     if order == 'sorted':
@@ -587,6 +593,13 @@ def tier_c(run, thorough):
                                 centre_order='sorted' if (ek + n_centers) % 2 else 'unsorted',
                                 nb_as='array' if ek % 2 else 'list')
                     bd.check(orc_sl_rdms, case, f'unchunked,{method}', function='get_searchlight_RDMs')
+    # typed data (image files hold int16 / uint8 / float32): the result is the float64 formula on the stored values.
+    # float32 only with one observation per event (numpy averages float32 rows in float32: a precision question, not claimed)
+    for k, (dt, events, n_cond, reps) in enumerate([('int16', 'int', 4, 1), ('int16', 'str', 3, 2), ('uint8', 'int-gaps', 4, 1),
+                                                   ('uint8', 'int', 3, 2), ('float32', 'str', 5, 1), ('float32', 'int', 4, 1)]):
+        for method in ('euclidean', 'correlation'):
+            bd.check(orc_sl_rdms, dict(seed=700 + k, n_centers=7, method=method, events=events, n_cond=n_cond, reps=reps, nb_min=3, nb_max=6,
+                                       dtype=dt, centre_order='unsorted'), f'unchunked,{method},{dt}-data', function='get_searchlight_RDMs')
     for n_centers in ([999, 1000] if thorough else [1000]):
         for method in (('euclidean', 'correlation', 'poisson') if thorough else ('euclidean', 'correlation')):
             bd.check(orc_sl_rdms, dict(seed=n_centers, n_centers=n_centers, method=method, events='int', n_cond=3, reps=2, nb_min=3, nb_max=5,
